@@ -320,6 +320,20 @@ async fn run(name: &str) -> Result<(), String> {
             timeout(Duration::from_secs(5), task).await.map_err(|_| "delete() ticket resolved but the job task had not ended 5 s later (the ticket was not the Delete control's)".to_string())?.map_err(|e| e.to_string())?;
             Ok(())
         }
+        // C07 (D19): a grace period too long to be represented (Duration::MAX) must not panic the job task: the stop signal is sent, the ticket resolves when the process ends
+        "huge_grace_does_not_panic_the_job_task" => {
+            let (job, task) = start_job(sh("sleep 30"));
+            job.start().await;
+            let r = timeout(Duration::from_secs(3), job.stop_with_signal(Signal::Terminate, Duration::MAX)).await;
+            if r.is_err() { return Err(format!("stop_with_signal(TERM, Duration::MAX) on a process that dies of TERM: ticket unresolved after 3 s (job task finished: {})", task.is_finished())); }
+            let (job2, task2) = start_job(sh("sleep 30"));
+            job2.start().await;
+            let r2 = timeout(Duration::from_secs(3), job2.restart_with_signal(Signal::Terminate, Duration::MAX)).await;
+            if r2.is_err() { return Err(format!("restart_with_signal(TERM, Duration::MAX): ticket unresolved after 3 s (job task finished: {})", task2.is_finished())); }
+            job2.stop().await;
+            if task.is_finished() || task2.is_finished() { return Err("the job task ended (panicked) on a huge grace period".into()); }
+            Ok(())
+        }
         _ => Err(format!("unknown scenario {name}")),
     }
 }
